@@ -155,6 +155,9 @@ pub struct E2eCase {
     prime: bool,
     first_buf: u16,
     cont_buf: u16,
+    /// 0: encap; 1: encap_ext with one optional extension; 2: encap_ext with a chain of two
+    #[serde(default)]
+    ext: u8,
 }
 
 fn e2e_strategy(_t: Tier) -> BoxedStrategy<E2eCase> {
@@ -164,8 +167,9 @@ fn e2e_strategy(_t: Tier) -> BoxedStrategy<E2eCase> {
         1 => 9000u32..=65000,
         1 => 65500u32..=65527,
     ];
-    bx((plen, pdu_seed(), lab_addr_or_bcast(), ptype_user(), any::<u8>(), any::<bool>(), 13u16..=4097, 7u16..=4097).prop_map(
-        |(len, seed, lab, ptype, frag_id, prime, first_buf, cont_buf)| E2eCase {
+    bx((plen, pdu_seed(), lab_addr_or_bcast(), ptype_user(), any::<u8>(), any::<bool>(), 13u16..=4097, 7u16..=4097, prop_oneof![2 => Just(0u8), 1 => Just(1u8), 1 => Just(2u8)]).prop_map(
+        |(len, seed, lab, ptype, frag_id, prime, first_buf, cont_buf, ext)| E2eCase {
+            ext,
             pdu: Pdu { len, seed },
             lab,
             ptype,
@@ -211,7 +215,15 @@ fn check_e2e(c: &E2eCase, st: &mut Stats) -> Result<(), String> {
             }
         }
     }
-    let pkts = match send_pdu(&mut enc, &pdu, c.frag_id, c.ptype, c.lab, &[], c.first_buf as usize, c.cont_buf as usize) {
+    let exts: Vec<ExtSpec> = match c.ext {
+        1 => vec![ExtSpec { id: 0x0301, data: vec![1, 2, 3, 4] }],
+        2 => vec![ExtSpec { id: 0x0102, data: vec![] }, ExtSpec { id: 0x0003, data: vec![9, 8] }],
+        _ => vec![],
+    };
+    let ext_area: usize = if exts.is_empty() { 0 } else { exts.iter().map(|e| e.wire_len()).sum::<usize>() };
+    let first_buf = c.first_buf as usize + ext_area;
+    st.class_if(!exts.is_empty(), "with-extensions");
+    let pkts = match send_pdu(&mut enc, &pdu, c.frag_id, c.ptype, c.lab, &exts, first_buf, c.cont_buf as usize) {
         Ok(p) => p,
         Err(e) => return st.violation("send-failed", format!("sender failed on in-domain input: {}", e)),
     };
@@ -264,9 +276,10 @@ fn check_e2e(c: &E2eCase, st: &mut Stats) -> Result<(), String> {
     // recording pass: what the crate gives its calculator
     let rp = match {
         let mut out = vec![];
-        let mut buf = vec![0u8; c.first_buf as usize];
+        let mut buf = vec![0u8; first_buf];
         let md = EncapMetadata::new(c.ptype, c.lab.to_label());
-        match guard(|| renc.encap(&pdu, c.frag_id, md, &mut buf)) {
+        let built: Vec<_> = exts.iter().filter_map(|e| e.build().ok()).collect();
+        match guard(|| if built.is_empty() { renc.encap(&pdu, c.frag_id, md, &mut buf) } else { renc.encap_ext(&pdu, c.frag_id, md, &mut buf, built) }) {
             Ok(Ok(EncapStatus::FragmentedPkt(n, mut ctx))) => {
                 out.push(buf[..n as usize].to_vec());
                 loop {
@@ -350,7 +363,7 @@ pub fn property() -> Property {
                 fuzz_decode: None,
                 strategy: e2e_strategy,
                 check: check_e2e,
-                required_classes: &["fragmented", "first-fragment-substituted", "first-fragment-full-label"],
+                required_classes: &["fragmented", "first-fragment-substituted", "first-fragment-full-label", "with-extensions"],
             }),
         ],
     }
